@@ -15,7 +15,7 @@ import (
 // applyDecorations(B,Start). It is run from an arbitrary restorer state; the line breaks between
 // consecutive positioned items (comments, then B's first token) are read from the real r.lines and
 // compared, capped at 2 (one blank line, printer contract PC), with the documented rule.
-func vfC05(badA bool, maxDecs int) {
+func vfC05(badA bool, maxDecs int, interior bool) {
 	r := vfRestorer()
 	var a dst.Node = &dst.Ident{Name: "a"}
 	if badA {
@@ -32,8 +32,15 @@ func vfC05(badA bool, maxDecs int) {
 	c0 := len(r.comments)
 	prevEnd := r.cursor
 
-	r.applyDecorations(an, "End", dA, true)
-	r.applySpace(a, "After", dst.SpaceType(sa))
+	if interior {
+		// the decorations of an interior point of the parent (e.g. BlockStmt.Lbrace, CallExpr.Lparen,
+		// FieldList.Opening) followed by the first child's Before: the same rule with After = None
+		vfAssume(sa == 0)
+		r.applyDecorations(an, "Lbrace", dA, false)
+	} else {
+		r.applyDecorations(an, "End", dA, true)
+		r.applySpace(a, "After", dst.SpaceType(sa))
+	}
 	r.applySpace(b, "Before", dst.SpaceType(sb))
 	r.applyDecorations(bn, "Start", dB, false)
 	tokB := r.cursor
@@ -85,8 +92,9 @@ func vfC05(badA bool, maxDecs int) {
 	vfObserve("lines", len(r.lines))
 }
 
-func VerifC05Gap()    { vfC05(false, 1+vfTier()) }
-func VerifC05GapBad() { vfC05(true, 1) }
+func VerifC05Gap()      { vfC05(false, 1+vfTier(), false) }
+func VerifC05GapBad()   { vfC05(true, 1, false) }
+func VerifC05Interior() { vfC05(false, 1+vfTier(), true) }
 
 // VerifC05NoDecs is the documented table itself: no decorations, cursor not at a fresh line:
 // breaks = max(sa, sb); one blank line iff either side is EmptyLine.
